@@ -4,7 +4,6 @@ use crate::error::IggyError;
 use crate::http::client::HttpClient;
 use crate::http::HttpTransport;
 use crate::identifier::Identifier;
-use crate::messages::flush_unsaved_buffer::FlushUnsavedBuffer;
 use crate::messages::poll_messages::{PollMessages, PollingStrategy};
 use crate::messages::send_messages::{Message, Partitioning, SendMessages};
 use crate::models::messages::PolledMessages;
@@ -71,20 +70,12 @@ impl MessageClient for HttpClient {
         fsync: bool,
     ) -> Result<(), IggyError> {
         let _ = self
-            .get_with_query(
-                &get_path_flush_unsaved_buffer(
-                    &stream_id.as_cow_str(),
-                    &topic_id.as_cow_str(),
-                    partition_id,
-                    fsync,
-                ),
-                &FlushUnsavedBuffer {
-                    stream_id: stream_id.clone(),
-                    topic_id: topic_id.clone(),
-                    partition_id,
-                    fsync,
-                },
-            )
+            .get(&get_path_flush_unsaved_buffer(
+                &stream_id.as_cow_str(),
+                &topic_id.as_cow_str(),
+                partition_id,
+                fsync,
+            ))
             .await?;
         Ok(())
     }
@@ -100,5 +91,5 @@ fn get_path_flush_unsaved_buffer(
     partition_id: u32,
     fsync: bool,
 ) -> String {
-    format!("streams/{stream_id}/topics/{topic_id}/messages/flush/{partition_id}/fsync={fsync}")
+    format!("streams/{stream_id}/topics/{topic_id}/messages/flush/{partition_id}/{fsync}")
 }
